@@ -138,6 +138,8 @@ def obj_root(v):
             v = t[pi] if pi < len(t) else t[4]
         elif t[0] == 'sym' and t[1] == 'app' and prims.classify(t[2])[0] in ('fd_raw', 'temp_persist') and len(t) > 4:
             v = t[4]        # the raw descriptor of a handle / a kept temp path designates the same object
+        elif t[0] == 'agg' and len(t) == 4 and not t[1].startswith(('closure:', 'lazy:', 'tuple')) and t[3] is not None:
+            v = t[3]        # a one-field wrapper (`Ready::Path(p)`, `Some(p)`) designates what it wraps
         else:
             return v
     return v
@@ -244,6 +246,26 @@ def obj_handle_root(v):
         else:
             return v
     return v
+
+
+def norm_cmp(t):
+    """(op, a, b) of a comparison term; `a.cmp(&b) == Ordering::Less` (what `match a.cmp(&b) { Less => .. }` is reported
+    as) reads as `a < b`, Equal as `a == b`, Greater as `a > b`."""
+    if not (t[0] == 'sym' and t[1] == 'cmp'):
+        return None
+    op, a, b = t[2], t[3], t[4]
+    if op in ('Eq', 'Ne'):
+        for x, y in ((a, b), (b, a)):
+            ty, tx = VAL[y], VAL[x]
+            if ty[0] == 'agg' and ty[1] == 'std::cmp::Ordering' and tx[0] == 'sym' and tx[1] == 'app' and tx[2].endswith('::cmp') and len(tx) >= 6:
+                k = int(ty[2][1:])
+                rel = {0: 'Lt', 1: 'Eq', 2: 'Gt'}.get(k)
+                if rel is None:
+                    return None
+                if op == 'Ne':
+                    rel = {'Lt': 'Ge', 'Eq': 'Ne', 'Gt': 'Le'}[rel]
+                return rel, tx[4], tx[5]
+    return op, a, b
 
 
 def rewind_edges(q, root):
